@@ -84,7 +84,8 @@ def lake_build(targets):
 def build_harness():
     os.makedirs(BUILD, exist_ok=True)
     lock = os.path.join(HARNESS_DIR, "Cargo.lock")
-    rc, out = sh(["cargo", "build", "--release", "--offline"], cwd=HARNESS_DIR, timeout=3000)
+    rc, out = sh(["cargo", "build", "--release", "--offline"], cwd=HARNESS_DIR, timeout=3000,
+                 env={"CARGO_TARGET_DIR": os.path.join(BUILD, "harness-target")})
     return rc == 0, out
 
 # ------------------------------------------------------------------------------------------
